@@ -78,3 +78,25 @@ def _(self: "TypeConstructor", type_args: "Seq[Type]") -> "ParameterizedType":
     ensures("name", same(result.name, self.name))
     ensures("supertypes-len", len(result.supertypes) == len(self.supertypes))
     ensures("constructor-supertypes", same(result.t_constructor.supertypes, old(self.supertypes)))
+
+
+# ---------------------------------------------------------------- callers that compute arguments and instantiate
+@external("<any>.get_bound_rec")
+def _(self: "Any") -> "Opt[Type]":
+    """the bound of a projection (a query: modifies nothing); the result exists already"""
+    ensures("exists", implies(result is not None, allocated(result)))
+
+
+@contract("src.ir.types.ParameterizedType.to_variance_free", frame="fresh")
+def _(self: "ParameterizedType", type_var_map: "Opt[Map[TypeParameter,Type]]") -> "ParameterizedType":
+    """builds its own argument list: the receiver (an earlier instantiation), its arguments and the class definition keep
+    their meaning"""
+    requires("valid", Valid(self))
+    modifies(".*")
+    ensures("mutates-nothing", forall(lambda o: implies(allocated(o), unchanged(o))))
+    ensures("new", newobj(result))
+    ensures("arity", len(result.type_args) == len(self.type_args))
+    local(type_args="Seq[Type]")
+    with loop("0"):
+        invariant("mutates-nothing", forall(lambda o: implies(allocated(o), unchanged(o))))
+        invariant("len", len(type_args) == _i0)
